@@ -77,3 +77,56 @@ Theorem C05_long_context_refused :
   forall context u req s l2 n e, (65536 <= N.of_nat (length context))%N -> preamble context u req s l2 n e = Err ESerialization.
 Proof. exact preamble_refuses_context. Qed.
 Print Assumptions C05_long_context_refused.
+
+(* ---------------------------------------------------------------- end to end *)
+(* "Login succeeds only if client and server use the same context and the same effective identities": if the client
+   accepts a response carrying the MAC of an honest server session, both sides used the same context (absent = empty)
+   and the same effective client and server identities (absent = that party's static public key) - or a collision is
+   exhibited.  The adversary chooses what is delivered (r' is arbitrary apart from the MAC field). *)
+From OKE Require Import Hkdf Voprf Laws Bad ClientAccept MatchingApi BindingApi KeySeparation WrongCredential.
+Theorem C05_accepted_login_agrees_on_context_and_identities :
+  forall E Sc Pk Sk (CS : Suite E Sc Pk Sk), HashLaws (hash CS) -> GroupLaws CS ->
+  forall tape (setup : ServerSetup Pk Sk Sk) file rq cred ctx_s ids_s slog resp rest dbg
+         clog pw r' ctx_c ids_c ksf fin sk ek spk dbgc,
+    server_login_start CS (private_key_ops (ke CS)) tape setup (Some file) rq cred ctx_s ids_s = Ok (slog, resp, rest, dbg) ->
+    client_login_finish CS clog pw r' ctx_c ids_c ksf = Ok (fin, sk, ek, spk, dbgc) ->
+    k2_mac (cr_ke2 r') = k2_mac (cr_ke2 resp) ->
+    length (client_request_bytes CS clog) = length (server_request_bytes CS rq) ->
+    length (client_l2 CS r') = length (client_l2 CS resp) ->
+    length (k2_nonce (cr_ke2 r')) = length (k2_nonce (cr_ke2 resp)) ->
+    (exists rp env kp u s,
+       envelope_open CS env rp spk ids_c = Ok (kp, ek, u, s) /\
+       match ctx_c with Some c => c | None => nil end = match ctx_s with Some c => c | None => nil end /\
+       effective (id_client ids_c) (k_ser_pk (ke CS) (kp_pk kp)) =
+         effective (id_client ids_s) (k_ser_pk (ke CS) (ru_client_s_pk file)) /\
+       effective (id_server ids_c) (k_ser_pk (ke CS) spk) =
+         effective (id_server ids_s) (k_ser_pk (ke CS) (k_pub (ke CS) (kp_sk (ss_keypair setup)))))
+    \/ Bad (hash CS).
+Proof. exact @accepted_login_agrees_on_context_and_identities. Qed.
+Print Assumptions C05_accepted_login_agrees_on_context_and_identities.
+
+(* "... and the server evaluates under the credential identifier used at registration; any disagreement makes the
+   client's final step fail": after an honest registration with (pw, cred), a login in which the client uses another
+   password OR the server evaluates under another credential identifier is never accepted - unless a collision of HMAC,
+   the hash, HKDF-Expand, the client key derivation, Diffie-Hellman in the private key or the OPRF key derivation is
+   exhibited.  [action_free]: the scalar action of the OPRF group is free on valid elements and scalars (a group law in
+   addition to GroupLaws; proved for the toy suite). *)
+Theorem C05_other_password_or_credential_identifier_never_accepted :
+  forall E Sc Pk Sk (CS : Suite E Sc Pk Sk), HashLaws (hash CS) -> GroupLaws CS ->
+  (forall a b : Sk, {a = b} + {a <> b}) ->
+  (forall P a b, ve CS P -> vs CS a -> vs CS b -> o_mul (oprf CS) P a = o_mul (oprf CS) P b -> a = b) ->
+  forall tape setup t1 pw creg rq t2 cred rr ids ksf upload ek spk t3 pw' cred' clog ke1 t4 ctx slog ke2 t5 dbg out,
+    ve CS (o_h2g (oprf CS) pw (dst_hash_to_group (oprf CS))) ->
+    ve CS (o_h2g (oprf CS) pw' (dst_hash_to_group (oprf CS))) ->
+    server_setup_new CS tape = Ok (setup, t1) ->
+    client_registration_start CS t1 pw = Ok (creg, rq, t2) ->
+    server_registration_start CS setup rq cred = Ok rr ->
+    client_registration_finish CS creg t2 pw rr ids ksf = Ok (upload, ek, spk, t3) ->
+    pw' <> pw \/ cred' <> cred ->
+    client_login_start CS t3 pw' = Ok (clog, ke1, t4) ->
+    server_login_start CS (private_key_ops (ke CS)) t4 setup (Some (server_registration_finish upload)) ke1 cred' ctx ids
+      = Ok (slog, ke2, t5, dbg) ->
+    client_login_finish CS clog pw' ke2 ctx ids ksf = Ok out ->
+    BadS CS \/ BadOprfDerive CS.
+Proof. exact @mismatched_login_never_accepted. Qed.
+Print Assumptions C05_other_password_or_credential_identifier_never_accepted.
